@@ -132,3 +132,9 @@ Proof. exact json_label_name. Qed.
 Theorem c18_json_label_v6_refuted : exists a p, is_ipv6 a = true /\ forall_s host_char a = true /\ port_ok p = true
   /\ parse_host_and_port (json_label a p) 22 <> Ok (a, p).
 Proof. exact json_label_v6_refuted. Qed.
+
+(* every port-range test of the source, translated from the current code, rejects exactly the ports outside 1..65535 (the model's port_ok) *)
+From VGen Require Import Tables.
+From VProofs Require Import TieC18.
+Theorem c18_tie_port_tests : forall p, Forall (fun b => b = negb (port_ok p)) (src_port_invalid_all p).
+Proof. exact tie_port_tests. Qed.
